@@ -94,6 +94,8 @@ pub struct Ctx {
     pub enabled: PMask,
     pub machinery_errors: Vec<String>,
     pub evaluations: u64,
+    /// distinct non-trivial cases (counted by the engines; see each engine's rule)
+    pub nontrivial: u64,
 }
 
 impl Default for Ctx {
@@ -116,6 +118,7 @@ impl Ctx {
             enabled,
             machinery_errors: Vec::new(),
             evaluations: 0,
+            nontrivial: 0,
         }
     }
     pub fn fork(&self) -> Ctx {
@@ -219,6 +222,7 @@ impl Ctx {
         }
         self.machinery_errors.extend(o.machinery_errors);
         self.evaluations += o.evaluations;
+        self.nontrivial += o.nontrivial;
     }
     pub fn total_violations(&self) -> u64 {
         self.viol_total.iter().sum()
@@ -399,6 +403,7 @@ impl EngineReport {
             .set("states", self.states)
             .set("transitions", self.transitions)
             .set("evaluations", self.cx.evaluations)
+            .set("distinct_nontrivial", self.cx.nontrivial)
             .set("checks", checks)
             .set("violations", viol)
             .set("best_violations", J::Arr(best))
